@@ -17,6 +17,17 @@ PENDING = 'check not built yet in this session; see DESIGN.md section 5 for the 
 NOT_APPLICABLE = {('C%02d' % i): PENDING for i in range(1, 21)}
 
 CHECKS = {
+    'C08': {
+        'engine': 'obligations + siblings',
+        'technique': 'fill-pointer typestate of the visiting-order array, exhaustive relaxation-branch obligations, dependency-formula templates, per-source allocation (dominance in the source loop), feature agreement between sibling routines',
+        'text': 'For the three Brandes-style routines: settled nodes are recorded by `Q[q] = v; q -= 1`, so the free slots after the search are Q[:q+1] and '
+                'must receive exactly the unreachable set before the dependency loop; strict improvement resets path count and predecessor row, ties add, '
+                'nothing else writes them; dependencies are propagated over Q[:n-1] with (1+DP[w]) NP[v]/NP[w], identical for node and edge '
+                'accumulators; all per-source state is created inside the source loop; node part of edge_betweenness_wei equals betweenness_wei and the '
+                'binary/weighted edge routines agree; betweenness_bin keeps its sentinel order, recursion and column sum.',
+        'note': 'That these bookkeeping facts yield the exact shortest-path fractions (Brandes\' theorem, tie handling by exact float equality) is cited, '
+                'not decided. The matrix-power routine betweenness_bin is only matched against its published form.',
+    },
     'C19': {
         'engine': 'valnum + obligations + siblings',
         'technique': 'same-source def-use rule for the p-value array, value-numbered t statistics compared with the textbook formulas per tail branch, AST templates for threshold / labelling / sizing, feature agreement between nbs.py and nbs_parallel.py',
